@@ -196,6 +196,7 @@ def stack_cases(draw, pool):
         a = draw(st.one_of(st.sampled_from([lo0, hi0, (lo0 + hi0) / 2]), st.floats(lo0, hi0, allow_nan=False)))
         a = float(np.float32(a))
         a = min(max(a, lo0), hi0)
+        a = wrapref.safe_action(ref, a)
     else:
         a = draw(st.integers(0, nA - 1))
     return {
@@ -351,6 +352,8 @@ def timelimit_cases(draw):
         if draw(st.integers(0, 11)) == 0:
             ops.append(["reset", seed + 500 + i])
         a = draw(st.floats(BOXB[0], BOXB[1], allow_nan=False)) if kind == "box" else draw(st.integers(0, nA - 1))
+        if kind == "box":
+            a = wrapref.safe_action(wrapref.StackRef(spec, program), float(np.float32(a)))
         ops.append(["step", a, seed + 1 + i])
     return {"kind": kind, "spec": spec, "program": program, "ops": ops}
 
